@@ -10,6 +10,9 @@ CONFIG = dict(
         dict(suffix="-race", comparisons=[
             dict(name="race", code=1702, kind="holds", predicate=True),
         ]),
+        dict(suffix="-arace", comparisons=[
+            dict(name="install-race", code=1703, kind="holds", predicate=True),
+        ]),
     ],
     trusted_base=COMMON_TB,
     assumptions=[
